@@ -210,7 +210,7 @@ func poolCluster(name string, max int32) *proxyv1alpha1.UpstreamCluster {
 
 func TestPropLeaderGuard(t *testing.T) {
 	sub := stats.NewSub("leader-guard-histories", "rapid state machine on the real limiter with a scripted elector (N in 1..4 shards, local / API-backed store): ops gain, lose, foreign leader announced (+leaderCheck), allocate, acquire, cluster update, for a pool of upstream names; model = set of led shards and the conditions acknowledged per shard; oracle: a call succeeds iff the upstream's shard (reference function) is led, otherwise error naming the recorded leader and no store exists for the shard; a cluster update for a shard not led changes nothing; after lose+regain with the local store earlier conditions are gone; after a successful allocate only the owning shard's store holds the condition; non-trivial = history has a loss of leadership after a successful call and a later call for that shard; distinct by FNV-64 of the op trace")
-	stats.Check(t, stats.N(1500, 25000), func(t *rapid.T) {
+	stats.Check(t, stats.N(4000, 25000), func(t *rapid.T) {
 		n := rapid.IntRange(1, 4).Draw(t, "N")
 		kind := rapid.SampledFrom([]string{"local", "k8s"}).Draw(t, "store")
 		box := limbox.New(kind, n, "http://me:1")
@@ -446,7 +446,7 @@ func (e *e2e) close() {
 
 func TestPropEndToEndRouting(t *testing.T) {
 	sub := stats.NewSub("end-to-end-routing", "rapid: 2-3 real limiter servers (real request dispatcher + real limiter, scripted leadership) sharing N in [1,16] shards, the real gateway-side client set synced from one of them over HTTP; for 1-5 generated upstream names the gateway sends the allocate call where ClientFor says; oracle: the receiving server serves it (it leads the upstream's shard by its own computation) - a 'leader is' refusal means both sides disagree; non-trivial = N >= 2 and both servers lead a shard; distinct by FNV-64 of (N, assignment, names)")
-	stats.Check(t, stats.N(150, 3000), func(t *rapid.T) {
+	stats.Check(t, stats.N(400, 3000), func(t *rapid.T) {
 		nServers := rapid.IntRange(2, 3).Draw(t, "servers")
 		n := rapid.IntRange(1, 16).Draw(t, "N")
 		assign := make([]int, n)
